@@ -31,8 +31,8 @@ Proof. exact read_bch_correct. Qed.
 Theorem C20_read_cgfx : forall m f texs, conforms_cgfx f texs -> read_cgfx m f = decode_all (decode_tex m) texs.
 Proof. exact read_cgfx_correct. Qed.
 
-(* On the supported textures (the formats of C19 - RGBA8, RGBA5551, RGB565, RGBA4, LA8, L8, A8, ETC1, ETC1A4 -
-   with power-of-two sides >= 8; CI8 images whose indices lie in their RGB5A3 palette) every decoding
+(* On the supported textures (the formats of C19: RGBA8, RGBA5551, RGB565, RGBA4, LA8, L8, A8 with sides that are
+   multiples of 8, ETC1 and ETC1A4 with power-of-two sides >= 8; CI8 images whose indices lie in their RGB5A3 palette) every decoding
    succeeds with the same pixels in both arithmetic modes, so the readers return exactly map decoded texs. *)
 Theorem C20_decode_supported : forall m t, supported3ds t -> decode_tex m t = Ok (decoded t).
 Proof. exact decode_tex_supported. Qed.
@@ -211,8 +211,8 @@ Proof. split; [apply conforms_tplb_sound; vm_compute; reflexivity|]. vm_compute;
 Example C20_examples_supported : supported3ds ex_ctpk_tex /\ supported3ds ex_bch_tex /\ supportedtpl ex_tpl_tex.
 Proof.
   split; [|split].
-  - split; [left; reflexivity|]. split; [exists 0, 0; split; reflexivity|]. split; reflexivity.
-  - split; [left; reflexivity|]. split; [exists 0, 0; split; reflexivity|]. split; reflexivity.
+  - split; [left; repeat split; reflexivity|]. split; reflexivity.
+  - split; [left; repeat split; reflexivity|]. split; reflexivity.
   - split; [reflexivity|]. split; [reflexivity|]. repeat constructor.
 Qed.
 
